@@ -186,6 +186,12 @@ func (m *runtimeContextManager) requireCPU(cpuAmount uint64) {
 		cpuUsed = ^uint64(0) // saturate instead of wrapping around
 	}
 	if atLimit(cpuUsed, m.hardLimits.Cpu) {
+		if m.status == StatusLive {
+			// The request is refused and the context dies: all that was left is
+			// gone.  This is also what its parent will be charged, so a limit
+			// inherited from the parent is as good as reached there too.
+			m.usedResources.Cpu = m.hardLimits.Cpu - 1
+		}
 		m.TerminateContext("CPU limit of %d exceeded", m.hardLimits.Cpu)
 	}
 	if m.trackTime && m.nextCpuThreshold <= cpuUsed {
@@ -217,6 +223,10 @@ func (m *runtimeContextManager) requireMem(memAmount uint64) {
 		memUsed = ^uint64(0) // saturate instead of wrapping around
 	}
 	if atLimit(memUsed, m.hardLimits.Memory) {
+		if m.status == StatusLive {
+			// See requireCPU.
+			m.usedResources.Memory = m.hardLimits.Memory - 1
+		}
 		m.TerminateContext("memory limit of %d exceeded", m.hardLimits.Memory)
 	}
 	m.usedResources.Memory = memUsed
